@@ -142,6 +142,13 @@ func c10Anchor(t *rapid.T) C10Triple {
 			pool = append(pool, fmt.Sprintf("key%02d", (i*37)%64))
 		}
 	}
+	numeric := false
+	if nkeys <= 12 && rapid.IntRange(0, 4).Draw(t, "numerickeys") == 0 {
+		// keys that are different strings but read as the same number (or in another order as
+		// numbers than as strings): the order of the keys is one order all the same
+		numeric = true
+		pool = []string{"1", "1.0", "01", "1e0", "10", "9", "2", "02", "2.0", "0", "-0", "0.0", "1.00", "+1"}
+	}
 	var keys []string
 	seen := map[string]bool{}
 	for len(keys) < nkeys {
@@ -155,7 +162,11 @@ func c10Anchor(t *rapid.T) C10Triple {
 	var kvs []*ast.Node
 	for i, k := range keys {
 		docMembers = append(docMembers, jsonx.Member{Key: k, Val: jsonx.VNum(float64(i))})
-		kvs = append(kvs, ast.KV(k, ast.Num(fmt.Sprint(i))))
+		if numeric {
+			kvs = append(kvs, ast.KVs(k, ast.Num(fmt.Sprint(i))))
+		} else {
+			kvs = append(kvs, ast.KV(k, ast.Num(fmt.Sprint(i))))
+		}
 	}
 	doc := jsonx.VObj(docMembers...)
 	var stmts []*ast.Node
@@ -169,7 +180,11 @@ func c10Anchor(t *rapid.T) C10Triple {
 		obj = ast.Id("o")
 	case 2:
 		for i, k := range keys {
-			stmts = append(stmts, ast.ExprS(ast.Set(ast.Mem(ast.Id("o"), k), ast.Num(fmt.Sprint(i)))))
+			if numeric {
+				stmts = append(stmts, ast.ExprS(ast.Set(ast.Idx(ast.Id("o"), ast.Str(k)), ast.Num(fmt.Sprint(i)))))
+			} else {
+				stmts = append(stmts, ast.ExprS(ast.Set(ast.Mem(ast.Id("o"), k), ast.Num(fmt.Sprint(i)))))
+			}
 		}
 		obj = ast.Id("o")
 	default:
